@@ -359,7 +359,7 @@ def brightness [Sc α] (c : Color α) : α :=
 
 /-- `f` in `Color::luminance` (lib.rs:654). -/
 def lumF [ScT α] (s : α) : α :=
-  if s ≤ 0.03928 then s / 12.92 else pow ((s + 0.055) / 1.055) 2.4
+  if s ≤ 0.04045 then s / 12.92 else pow ((s + 0.055) / 1.055) 2.4
 
 /-- `Color::luminance` (lib.rs:653). -/
 def luminance [ScT α] (c : Color α) : α :=
